@@ -323,6 +323,35 @@ fn run_op(db: &mut FixtureDatabase, op: &Value) -> Value {
             let fr = answer(&mut fresh);
             json!({"live": live, "fresh": fr})
         }
+        "multi" => {
+            let queries: Vec<Value> = op.get("queries").and_then(|v| v.as_array()).cloned().unwrap_or_default();
+            Value::Array(queries.iter().map(|q| run_op(db, q)).collect())
+        }
+        "cold" => {
+            // C07: the same queries on the live (warm) database and on a database that
+            // replays the state-changing operations and is asked only now
+            let queries: Vec<Value> = op.get("queries").and_then(|v| v.as_array()).cloned().unwrap_or_default();
+            let warm: Vec<Value> = queries.iter().map(|q| run_op(db, q)).collect();
+            let mut fresh = FixtureDatabase::new();
+            if let Some(ops) = op.get("replay").and_then(|v| v.as_array()) {
+                for o in ops {
+                    run_op(&mut fresh, o);
+                }
+            }
+            // each cold query gets its own cold database state: re-create for every query
+            let mut cold = Vec::new();
+            for q in &queries {
+                let mut f = FixtureDatabase::new();
+                if let Some(ops) = op.get("replay").and_then(|v| v.as_array()) {
+                    for o in ops {
+                        run_op(&mut f, o);
+                    }
+                }
+                cold.push(run_op(&mut f, q));
+            }
+            drop(fresh);
+            json!({"warm": warm, "cold": cold})
+        }
         "refs_by_name" => {
             let r = db.find_fixture_references(s(op, "name"));
             let mut v: Vec<Value> = r.iter().map(usage_json).collect();
